@@ -74,6 +74,11 @@ pub fn gen_plan(rng: &mut Rng) -> Plan {
         4 => (1 << (12 + rng.below(12))) | (1 << (12 + rng.below(12))),
         _ => 0,
     };
+    // ordered multi-rule filters with overlaps on a commitment / setup / size / on-chain tag
+    if rng.chance(1, 6) {
+        pol.rules = gen_overlap_rules(rng, &[0, 1, 2, 3, 4, 5, 6, 7, 8, 9, 10, 11]);
+        if rng.chance(2, 3) { pol.mask = 0 }
+    }
     let edge = |rng: &mut Rng, lo: u64, hi: u64| -> u64 {
         match rng.below(20) {
             0 => lo.saturating_sub(1),
@@ -276,6 +281,9 @@ pub fn gen_onchain_case(rng: &mut Rng) -> Vec<String> {
     let mut pol = Pol::default_testnet();
     pol.onchain = true;
     pol.mask = if rng.chance(1, 12) { 1 << BIT_ACTIVE_UTXO } else { 0 };
+    if rng.chance(1, 8) {
+        pol.rules = gen_overlap_rules(rng, &[BIT_ACTIVE_UTXO]);
+    }
     let outbound = rng.chance(1, 2);
     let setup = SetupNums {
         outbound, value: 3_000_000 + rng.below(3) * 1_000_000, push: 0, holder_delay: 6, cp_delay: 7,
@@ -504,6 +512,17 @@ impl Group for C05 {
                 "cp 0 0 0 0 2998000 0 0",
                 "setup 0 3000000 0 6 7 1 0 0 0",
                 "cp 0 0 0 0 2998000 0 0",
+            ]),
+            // ordered filter with OVERLAPPING rules: [error exact fee-range, warn prefix policy-commitment-]: the first
+            // match decides, the fee bound stays an error (14 sat/kw refused) while the dust bound is demoted;
+            // in the reverse order the prefix rule wins and the same commitment is signed
+            v(&[
+                "policy 0 4 2016 1000000001 10000 1000 16777216 0 253 333333 222000 0 2 8 0 0 0 1 1",
+                "setup 0 3000000 0 6 7 1 0 0 0",
+                "cp 0 0 0 0 2999990 0 0",
+                "cp 0 0 0 100 2998900 0 0",
+                "policy 0 4 2016 1000000001 10000 1000 16777216 0 253 333333 222000 0 2 0 1 1 8 0 0",
+                "cp 0 0 0 0 2999990 0 0",
             ]),
             // on-chain validator: unburied funding, then buried, then closed on chain
             v(&[
